@@ -101,6 +101,10 @@ func runC18(c *core.Ctx) {
 				}
 			}
 		}
+		// one large shape (more than 64 KiB of samples for 32- and 64-bit types)
+		for _, p := range t.Probes(8, 2100) {
+			check(p, 8, 2100)
+		}
 	}
 	for ai := 0; ai < dyn.NBuiltin; ai++ {
 		for bi := 0; bi < dyn.NBuiltin; bi++ {
